@@ -399,6 +399,11 @@ func (req *Request) write(w io.Writer, usingProxy bool, extraHeaders Header) err
 			}
 		}
 	}
+	// Nothing is written if the request line or the header block could not be parsed back as
+	// exactly this request by the backend (request splitting / header injection).
+	if req.Method != "" && !validToken(req.Method) {
+		return &badStringError{"http: invalid method in outgoing request", req.Method}
+	}
 	// TODO(bradfitz): escape at least newlines in ruri?
 
 	// Wrap the writer in a bufio Writer if it's not already buffered.
